@@ -196,6 +196,9 @@ func init() {
 			for (found < cs.ShortN || randomLeft > 0) && tries < 200000 {
 				tries++
 				depth, batch := 1+rng.Intn(4), 1+rng.Intn(3)
+				if mode == "insertion" && batch > 1<<depth {
+					continue // an insertion batch cannot be larger than the tree
+				}
 				if mode == "insertion" {
 					p := randomValidInsertion(rng, depth, batch)
 					short := len(p.PreRoot.Bytes()) < 32 || len(p.PostRoot.Bytes()) < 32
